@@ -219,13 +219,14 @@ def build_harness(cfg, log, release=False):
 SIGNAMES = {-6: "SIGABRT", -11: "SIGSEGV", -14: "SIGALRM", -4: "SIGILL", -7: "SIGBUS", -9: "SIGKILL", -8: "SIGFPE", -5: "SIGTRAP"}
 
 
-def run_isolated(argv_for, first, count, budget, log_prefix=""):
+def run_isolated(argv_for, first, count, budget, log_prefix="", extra_env=None):
     """Runs `argv_for(start, count)` processes until all cases first..first+count-1 have an OBS.
     A process that dies is restarted after the case in flight, which gets an `!abort`/`!hang` observation."""
     lines = []
     start = first
     end = first + count
     env = {"PVH_CASE_SECONDS": str(budget)}
+    env.update(extra_env or {})
     deaths = 0
     while start < end:
         if deaths >= MAX_DEATHS_PER_SHARD:
@@ -255,7 +256,7 @@ def run_isolated(argv_for, first, count, budget, log_prefix=""):
             verdict = "!hang"
         elif rc == -14:
             # re-run alone with a 10x budget before calling it a hang
-            rc2, out2 = sh(argv_for(int(cid), 1), env={"PVH_CASE_SECONDS": str(budget * 10)}, timeout=None)
+            rc2, out2 = sh(argv_for(int(cid), 1), env=dict(extra_env or {}, PVH_CASE_SECONDS=str(budget * 10)), timeout=None)
             obs2 = [l for l in out2.split("\n") if l.startswith("OBS ")]
             if rc2 == 0 and obs2:
                 lines.append(obs2[0])
@@ -271,12 +272,13 @@ def run_isolated(argv_for, first, count, budget, log_prefix=""):
     return lines
 
 
-def run_replay_file(exe, path, budget):
+def run_replay_file(exe, path, budget, extra_env=None):
     """replay mode restarts after the case in flight by skipping processed cases"""
     lines = []
     skip = 0
     total = sum(1 for l in open(path) if l.startswith("CASE "))
     env = {"PVH_CASE_SECONDS": str(budget)}
+    env.update(extra_env or {})
     while skip < total:
         rc, out = sh([exe, "replay", path, str(skip)], env=env)
         got = out.split("\n")
@@ -294,6 +296,10 @@ def run_replay_file(exe, path, budget):
             break
         cid = pending.split(" ")[1]
         verdict = "!hang" if rc == -14 else "!abort:" + SIGNAMES.get(rc, "rc=%d" % rc)
+        if rc != -14:
+            tail = [l for l in got if l and not l.startswith("CASE ") and not l.startswith("OBS ")]
+            if tail:
+                verdict += " " + tail[-1][:200].replace("\n", " ")
         lines.append("OBS %s %s" % (cid, verdict))
         skip += done + 1
     return lines
@@ -416,6 +422,9 @@ def shrink_case(pid, cfg, exe, driver, case, budget, still_fails):
 def check(pid, tier="quick", seed=0, replay=None):
     t0 = time.time()
     cfg = PROPS[pid]
+    if cfg.get("components"):
+        from vmeta import check_meta
+        return check_meta(pid, tier, seed, replay)
     log = []
     os.makedirs(os.path.join(VERIF, "evidence"), exist_ok=True)
     os.makedirs(os.path.join(VERIF, "replays"), exist_ok=True)
